@@ -47,6 +47,9 @@ From CG Require Import Model.EmitData.
 From CG Require Import Spec.InvocationsSub.
 From CG Require Import Model.Compiler.
 From CG Require Import Model.Diag.
+From CG Require Import Model.EmitZsh.
+From CG Require Import Model.EmitPwsh.
+From CG Require Import Model.EmitFish.
 From CG Require Import Model.Main.
 From CG Require Import Spec.Undercut.
 (* add new Require lines above this line *)
@@ -175,6 +178,9 @@ Separate Extraction
   Diag.render
   Diag.error_messages
   Diag.warning_messages
+  EmitZsh.script_of_dfa
+  EmitPwsh.script_of_dfa
+  EmitFish.script_of_dfa
   Main.run
   Undercut.undercut
   (* add new roots above this line *)
